@@ -286,7 +286,7 @@ def evaluate(table, spec, cls, container, on_node, n=None):
     except EvalError:
         raise
     except Exception as e:
-        if scale_extreme(table, a, Fr(10) ** 50) or scale_extreme(table, b, Fr(10) ** 50):
+        if pair_extreme(table, a, b):
             raise Degenerate(spec)
         raise EvalError(spec, e)
     if t == "*":
@@ -301,6 +301,30 @@ def evaluate(table, spec, cls, container, on_node, n=None):
 
 
 _BIG = Fr(10) ** 120
+
+
+def pair_extreme(table, a, b, bound=Fr(10) ** 100):
+    """True when combining a and b has to re-express one operand's units in the other's with a ratio that,
+    raised to the exponent it carries, leaves 10^-100 .. 10^100 ('ag' vs 'kg' under a 15th power is 1e-315):
+    the unit matching then underflows / overflows in floats - outside the examined input class."""
+    try:
+        ia, ib = dims.items_of(a.GetQuantity()), dims.items_of(b.GetQuantity())
+    except Exception:
+        return False
+    per_type = {}
+    for items in (ia, ib):
+        for c, u, e in items:
+            try:
+                per_type.setdefault(table.qt_of_category(c), []).append((table.factor(u), abs(e)))
+            except Exception:
+                return False
+    for lst in per_type.values():
+        emax = max(e for _f, e in lst)
+        fs = [f for f, _e in lst]
+        ratio = max(fs) / min(fs)
+        if ratio != 1 and ratio ** emax > bound:
+            return True
+    return scale_extreme(table, a, Fr(10) ** 50) or scale_extreme(table, b, Fr(10) ** 50)
 
 
 def scale_extreme(table, obj, bound=Fr(10) ** 100, power=1):
